@@ -309,6 +309,15 @@ fn probes(data: &[Vec<String>]) -> Vec<String> {
     for p in ["population", "p", "pop", "mass", "m", "a", "radius", "orbit", "e", "populat"] {
         v.push(p.to_string());
     }
+    // every distinct single word of the data set on its own (a word that names exactly one
+    // constant, a word many constants carry, a word that is a prefix of other words)
+    for t in data {
+        for w in t {
+            if typeable(std::slice::from_ref(w)) {
+                v.push(w.clone());
+            }
+        }
+    }
     v.sort();
     v.dedup();
     v
